@@ -81,7 +81,7 @@ impl Check for C11 {
         }
     }
     fn generate(&self, r: &mut Rng, tier: Tier, st: &mut Stats) -> Trace {
-        let big = tier == Tier::Thorough && r.chance(1, 30);
+        let big = r.chance(1, if tier == Tier::Thorough { 15 } else { 30 });
         let (mc, mr) = if big { (100, 30) } else { (24, 10) };
         let (cols, rows) = gen_size(r, mc, mr);
         let limit = *r.pick(&[None, None, Some(0), Some(5)]);
